@@ -469,6 +469,9 @@ func cmdRandom(args []string) {
 
 	d := buildDriver(*kind, *uname, *size, *seed)
 	bt := parseBattery(*bat)
+	if *dumpEvery >= 100000 {
+		bt.Dump = false // keys of 64 KiB: no structural dumps in the trace, by any route
+	}
 	tr := NewTrace(*out)
 	rec := NewRec(d, 1, tr, *seed)
 	r := rand.New(rand.NewSource(*seed*7919 + 17))
